@@ -98,8 +98,16 @@ def player_part(C):
             return VBool(False)
         e = ev[0]
         kw = dict(e.args["kwargs"])
-        ex = dict(common._kwargs_of(I, {"kwargs": extra})) if extra is not None and I.force(extra).tag != "none" else {}
+        if extra is None or I.force(extra).tag == "none":
+            ex = {}
+        elif I.force(extra).tag == "opaque":
+            ex = {"**": I.force(extra)}          # the caller's (arbitrary) extra event arguments
+        else:
+            ex = dict(common._kwargs_of(I, {"kwargs": extra}))
         star = kw.pop("**", None)
+        star_ex = ex.get("**")
+        if (star is None) != (star_ex is None):
+            return VBool(False)         # the caller's extra event arguments were dropped (or invented)
         if set(kw) - set(ex) != {"value", "prev_value", "change", "player_num"}:
             return VBool(False)
         conj = [I.eq(e.args["event"], VStr(z3.Concat(z3.StringVal("player_"), I.force(name).t))),
@@ -126,6 +134,8 @@ def player_part(C):
                     want = VBool(z3.Not(I.eq(v, p)))
                 cases.append(z3.Implies(z3.And(g1, g2), I.eq(kw["change"], want)))
         conj.extend(cases)
+        if star is not None:
+            conj.append(I.eq(star, star_ex))
         for k_, v_ in ex.items():
             if k_ == "**":
                 continue
@@ -157,12 +167,12 @@ def player_part(C):
     ANNOUNCE = "((not old(name in self.vars) or old(self.vars[name]) != value) and is_simple(value) and " \
                "self._events_enabled)"
     C.fn("Player._send_variable_event",
-         params=dict(name=Str, value=Scalar, prev_value=Scalar, change=Scalar, player_num=Int),
+         params=dict(name=Str, value=Scalar, prev_value=Scalar, change=Scalar, player_num=Int, kwargs=Opaque("Kwargs")),
          loops={0: LoopSpec(invariant=[], modifies=[])},
          ensures=[("one event player_<name> carrying value, prev_value, change and player_num",
                    "n_posts() == 1")],
          modifies=[], raises={}, inline_calls=True, emits=lambda I, env, res: None)
-    C.fn("Player.__setattr__", params=dict(name=Str, value=Scalar), requires=[NOTINT],
+    C.fn("Player.__setattr__", params=dict(name=Str, value=Scalar, kwargs=Opaque("Kwargs")), requires=[NOTINT],
          ensures=[
              ("the value is stored under the name", "name in self.vars and self.vars[name] == value"),
              ("V1: a new or changed int/float/str value posts exactly one player_<name> event with the new value, "
@@ -188,13 +198,13 @@ def player_part(C):
                    "implies(" + ANNOUNCE + ", posted_var(name, value, " + PREV + ", self.vars['number'], None))"),
                   ("nothing is posted otherwise", "implies(not " + ANNOUNCE + ", n_posts() == 0)")],
          modifies=["self.vars.**"], raises={}, inline_calls=True, emits=lambda I, env, res: None)
-    C.fn("Player.set_with_kwargs", params=dict(name=Str, value=Scalar), requires=[NOTINT],
+    C.fn("Player.set_with_kwargs", params=dict(name=Str, value=Scalar, kwargs=Opaque("Kwargs")), requires=[NOTINT],
          ensures=[("the value is stored under the name", "name in self.vars and self.vars[name] == value"),
                   ("announced with the extra event arguments",
                    "implies(" + ANNOUNCE + ", posted_var(name, value, " + PREV + ", self.vars['number'], kwargs))"),
                   ("nothing is posted otherwise", "implies(not " + ANNOUNCE + ", n_posts() == 0)")],
          modifies=["self.vars.**"], raises={})
-    C.fn("Player.add_with_kwargs", params=dict(name=Str, value=Num), requires=[
+    C.fn("Player.add_with_kwargs", params=dict(name=Str, value=Num, kwargs=Opaque("Kwargs")), requires=[
         NOTINT, ("the variable is a number (or new)", "implies(name in self.vars, is_number(self.vars[name]))")],
          ensures=[("the variable grows by exactly the value (from 0 when new)",
                    "self.vars[name] == " + PREV + " + value"),
